@@ -134,6 +134,21 @@ class Gen:
             sc["ints"][n] = "uint"
             sc["ro"].add(n)
             return out
+        if k < 0.1:
+            # a switch with many case labels in random order, probed with every label and its neighbours
+            nk = r.randrange(6, 16)
+            keys = r.sample(range(-40, 120), nk) if r.random() < 0.7 else r.sample([0, 1, -1, 127, 128, 255, 256, 32767, 32768, 65535, 65536, 2147483647, -2147483647, 1000, 77, 45, 40, 30, 20, 50, 70], nk)
+            probes = sorted(set(keys + [x + 1 for x in keys[:6]] + [x - 1 for x in keys[:6]]))
+            probes = [p for p in probes if -2147483648 <= p <= 2147483647]
+            arr, i = self.fresh("pk"), self.fresh("i")
+            self.globals.append(s_decl(arr, A(T("int"), len(probes)), i_list([i_e(lit("int", p)) for p in probes])))
+            body = []
+            for j, kv in enumerate(keys):
+                body += [s_case(kv), s_obs(lit("int", j + 1)), s_break()]
+            if r.random() < 0.6:
+                body += [s_default(), s_obs(lit("int", 0))]
+            return [s_for(s_decl(i, T("int"), i_e(lit("int", 0))), bin_("<", var(i), lit("int", len(probes))), s_expr(incdec(var(i))),
+                          s_switch(idx(var(arr), var(i)), body))]
         if k < 0.2:
             n, a, i, t, ln = self.fresh("n"), self.fresh("al"), self.fresh("i"), r.choice(ALL), r.randrange(1, 7)
             out = [s_decl(n, T("uint"), i_e(lit("uint", ln))), s_alloca(a, T(t), var(n)),
